@@ -150,6 +150,40 @@ Proof.
   rewrite get_transaction_abs, RC. apply C_get_transaction_replay. exact Hu.
 Qed.
 
+(* ---- metadata and transactions as of a date ---------------------------------------------------------------------------------- *)
+Lemma c04_account_meta_pit_partial : forall L l d a pit,
+  run L = Some d ->
+  dates_monotone (ledger_logs l L) = true ->
+  script_meta_same_date (ledger_logs l L) = true ->
+  pit_not_a_log_date (ledger_logs l L) pit = true ->
+  opit_equiv (get_account_pit d l a pit) (replay_account_meta (ledger_logs l L) a (Some pit)).
+Proof.
+  intros L l d a pit H Hm Hs Hp. destruct (run_refines L d H) as [W R]. destruct (R l) as [_ [RB _]].
+  rewrite get_account_pit_abs, RB. apply B_get_account_pit_replay; assumption.
+Qed.
+
+Lemma ids_nodup : forall txs l, NoDup (map (fun r => (x_ledger r, x_id r)) txs) ->
+  NoDup (map x_id (filter (fun r => N.eqb (x_ledger r) l) txs)).
+Proof.
+  induction txs as [|x txs IH]; intros l H; cbn; [constructor|]. inversion H as [|? ? Hn Hr]; subst.
+  destruct (N.eqb_spec (x_ledger x) l) as [E|E]; [|apply IH; assumption].
+  cbn. constructor; [|apply IH; assumption]. intros C. apply in_map_iff in C. destruct C as [y [Ey Hy]].
+  apply filter_In in Hy. destruct Hy as [Hy Ly]. apply N.eqb_eq in Ly. apply Hn.
+  apply in_map_iff. exists y. split; [|assumption]. congruence.
+Qed.
+
+Lemma c04_tx_pit_partial : forall L l d id pit,
+  run L = Some d ->
+  all_utc (ledger_logs l L) = true ->
+  dates_monotone (ledger_logs l L) = true ->
+  reverted_at_most_once (ledger_logs l L) id = true ->
+  tx_view_equiv (get_transaction_pit d l id pit) (replay_tx (ledger_logs l L) id (Some pit)).
+Proof.
+  intros L l d id pit H Hu Hm Hc. destruct (run_refines L d H) as [W R]. destruct (R l) as [_ [_ RC]].
+  rewrite get_transaction_pit_abs, RC. apply C_get_transaction_pit_replay; try assumption.
+  rewrite <- RC. unfold absC. rewrite map_map. cbn [btx_of bx_id]. apply ids_nodup. apply (wt_key _ _ _ (wf_tx _ W)).
+Qed.
+
 (* ---- witnesses of the known findings ------------------------------------------------------------------------------------------- *)
 Definition mk_tx (id ts off : Z) (ps : list posting) : txdata :=
   {| t_id := id; t_ts := ts; t_off := off; t_ref := None; t_postings := ps; t_meta := [] |}.
